@@ -597,10 +597,12 @@ class Target(DataExchangeProtocol):
             elif req.did != self.did:
                 log.debug("ignore non-matching device identifier")
                 res = None
-            elif type(req) == DSL_REQ:
-                return self.send_res_recv_req(DSL_RES(self.did), 0)
-            elif type(req) == RLS_REQ:
-                return self.send_res_recv_req(RLS_RES(self.did), 0)
+            elif type(req) in (DSL_REQ, RLS_REQ):
+                # deselected or released: a command that follows the
+                # response is not part of this data exchange
+                RES = DSL_RES if type(req) == DSL_REQ else RLS_RES
+                self.send_res_recv_req(RES(self.did), 0)
+                return None
             elif type(req) == DEP_REQ:
                 if req.pfb.fmt == DEP_REQ.Attention:
                     res = ATN(self.did, self.nad)
